@@ -59,27 +59,29 @@ type Step struct {
 }
 
 type RpcCase struct {
-	ID      int      `json:"id"`
-	Proto   string   `json:"proto"` // http | twirp | grpc | grpcweb | grpcwebtext
-	Codec   string   `json:"codec"` // json | proto
-	Comp    string   `json:"comp"`  // "" | gzip
-	Shape   string   `json:"shape"` // unary | cstream | sstream | bidi
-	Opts    []string `json:"opts"`  // unaryInt | streamInt | stats
-	Sizes   []int    `json:"sizes"` // sizes of the client messages (payload filler bytes)
-	Script  []Step   `json:"script"`
-	ReqMD   MD       `json:"reqmd"`
-	MaxRecv int      `json:"maxrecv"`
-	MaxSend int      `json:"maxsend"`
-	Sched   []int    `json:"sched"` // read schedule of the request body
-	EofWith bool     `json:"eofwith"`
-	Trunc   int      `json:"trunc"` // cut the request body after this many bytes (0 = whole)
-	Timeout string   `json:"timeout"`
-	Accept  string   `json:"accept"`
-	Tag     string   `json:"tag"`
-	BinPad  bool     `json:"binpad"`
-	ReqWant MD       `json:"reqwant"` // what the specification expects the handler to see for ReqMD
-	Exact   bool     `json:"exact"`   // sizes are exact wire sizes in the case's codec
-	TruncK  int      `json:"trunck"`  // with Trunc > 0: number of complete client messages kept
+	ID       int      `json:"id"`
+	Proto    string   `json:"proto"` // http | twirp | grpc | grpcweb | grpcwebtext
+	Codec    string   `json:"codec"` // json | proto
+	Comp     string   `json:"comp"`  // "" | gzip
+	Shape    string   `json:"shape"` // unary | cstream | sstream | bidi
+	Opts     []string `json:"opts"`  // unaryInt | streamInt | stats
+	Sizes    []int    `json:"sizes"` // sizes of the client messages (payload filler bytes)
+	Script   []Step   `json:"script"`
+	ReqMD    MD       `json:"reqmd"`
+	MaxRecv  int      `json:"maxrecv"`
+	MaxSend  int      `json:"maxsend"`
+	Sched    []int    `json:"sched"` // read schedule of the request body
+	EofWith  bool     `json:"eofwith"`
+	Trunc    int      `json:"trunc"` // cut the request body after this many bytes (0 = whole)
+	Timeout  string   `json:"timeout"`
+	Accept   string   `json:"accept"`
+	Tag      string   `json:"tag"`
+	BinPad   bool     `json:"binpad"`
+	ReqWant  MD       `json:"reqwant"`  // what the specification expects the handler to see for ReqMD
+	Exact    bool     `json:"exact"`    // sizes are exact wire sizes in the case's codec
+	TruncK   int      `json:"trunck"`   // with Trunc > 0: number of complete client messages kept
+	Corrupt  bool     `json:"corrupt"`  // gRPC: the first frame claims to be compressed but holds garbage
+	Boundary int      `json:"boundary"` // >0: the first message is 8+Boundary-1 small records and the receive limit is exactly 8 records
 }
 
 // ---- observation ----------------------------------------------------------------
@@ -183,6 +185,16 @@ func repMsg(caseID, idx, size int) *dynamicpb.Message {
 	m.Set(repDesc().Fields().ByName("id"), protoreflect.ValueOfString(fmt.Sprintf("h%d-r%d", caseID, idx)))
 	if size > 0 {
 		m.Set(repDesc().Fields().ByName("pad"), protoreflect.ValueOfBytes([]byte(filler(size, idx))))
+	}
+	return m
+}
+
+// recordsMsg is client message idx made of n small repeated records (after the id).
+func recordsMsg(caseID, idx, n int) *dynamicpb.Message {
+	m := reqMsg(caseID, idx, 0)
+	l := m.Mutable(reqDesc().Fields().ByName("r")).List()
+	for i := 0; i < n; i++ {
+		l.Append(protoreflect.ValueOfString("aaaaa"))
 	}
 	return m
 }
@@ -555,6 +567,10 @@ func newRpcEnv(c RpcCase) (*rpcEnv, error) {
 	}
 	e.mux = mux
 	for i, sz := range c.Sizes {
+		if c.Boundary > 0 && i == 0 {
+			e.sent = append(e.sent, recordsMsg(c.ID, 1, 8+c.Boundary-1))
+			continue
+		}
 		if c.Exact {
 			e.sent = append(e.sent, exactReq(c.ID, i+1, sz, c.Codec))
 		} else {
@@ -620,6 +636,9 @@ func (e *rpcEnv) requestBody() []byte {
 			}
 			frames = append(frames, p)
 		}
+	}
+	if c.Corrupt && len(frames) > 0 {
+		frames[0] = grpcFrame([]byte("this is not a gzip stream at all"), true)
 	}
 	var body []byte
 	for i, f := range frames {
@@ -1128,6 +1147,10 @@ func runRpcCase(c RpcCase) RpcEv {
 	if ev.C.Sched == nil {
 		ev.C.Sched = []int{}
 	}
+	if c.Boundary > 0 {
+		c.MaxRecv = len(marshalMsg(c.Codec, recordsMsg(c.ID, 1, 8)))
+		ev.C.MaxRecv = c.MaxRecv
+	}
 	e, err := newRpcEnv(c)
 	if err != nil {
 		ev.Crash = "setup: " + err.Error()
@@ -1152,6 +1175,11 @@ func runRpcCase(c RpcCase) RpcEv {
 		// the cut fell on a message boundary: a complete, shorter stream
 		ev.C.Trunc = 0
 		ev.Sent = ev.Sent[:c.TruncK]
+	}
+	if c.Corrupt {
+		// the specification sees a stream whose first message cannot be received
+		ev.C.Trunc, ev.C.TruncK = 1, 0
+		ev.Sent = ev.Sent[:0]
 	}
 	w := httptest.NewRecorder()
 	done := make(chan string, 1)
